@@ -158,6 +158,34 @@ CHECK_RE = re.compile(
 )
 
 
+
+MODS = ("store_impl", "channel", "builder", "dispatcher", "iterator", "subscriber", "selector", "metrics", "store_droppable", "middleware", "reducer", "store", "effect")
+
+
+def norm_fn(fn):
+    """crate-relative function name of an rs-store function with generic arguments elided
+    ('' for std / harness / model functions)"""
+    out, depth = [], 0
+    lead = fn.startswith("<")
+    body = fn[1:] if lead else fn
+    for ch in body:
+        if ch == "<":
+            depth += 1
+            if depth == 1:
+                out.append("<..>")
+            continue
+        if ch == ">":
+            if depth == 0:
+                continue  # closes the leading '<T as Trait>'
+            depth -= 1
+            continue
+        if depth == 0:
+            out.append(ch)
+    s = re.sub(r"::\{closure#\d+\}", "::{closure}", "".join(out))
+    if not s.startswith(tuple(m + "::" for m in MODS)):
+        return ""
+    return s[:140]
+
 def parse_output(out):
     r = {
         "checks": 0,
@@ -182,10 +210,9 @@ def parse_output(out):
         st, desc, loc, name = m.group("status"), m.group("desc"), m.group("loc") or "", m.group("name")
         fm = re.search(r" in function (.*)$", loc)
         if fm:
-            fn = fm.group(1)
-            if "rs_store" in fn or fn.startswith(("store_impl", "channel", "builder", "dispatcher", "iterator", "subscriber", "selector", "metrics", "store_droppable", "<store_impl", "<channel", "<iterator", "<subscriber", "<metrics", "<store_droppable", "<dispatcher", "<builder")):
-                if "verif_kani" not in fn.split("::<")[0]:
-                    r["functions"].add(re.sub(r"::\{closure#\d+\}", "::{closure}", fn.split("::<")[0])[:120])
+            fn = norm_fn(fm.group(1))
+            if fn:
+                r["functions"].add(fn)
         if ".cover." in name or desc.startswith("COVER"):
             r["covers"][desc] = st
             continue
